@@ -918,3 +918,13 @@ func AdvanceSkew(d time.Duration) {
 		S.skew += int64(d)
 	}
 }
+
+// NowUnstalled returns virtual nanoseconds since the run started, not counting
+// injected stalls: liveness budgets are measured on this clock, so that no
+// timing verdict is given for time that passed because of an injected fault.
+func NowUnstalled() int64 {
+	if S == nil {
+		return 0
+	}
+	return S.vnow() - S.stallNs
+}
